@@ -347,3 +347,39 @@ Example C13_adaptor_code_nonvacuous :
   fn_byteReader_ReadByte gstate0 (repeat Zero 100 ++ [Data "x"%char]) [zero_byte]
     = Ret (Err EOther, ([Data "x"%char], [zero_byte])).
 Proof. split; vm_compute; reflexivity. Qed.
+
+(* ---- the four bulk handlers themselves (HandleXmlReader[Raw], HandleJsonReader[Raw]), translated from the current sources in
+   handler mode (translator/handlers.go: the handler functions thread an abstract common state; the reader callee is nil-aware):
+   for ANY handler state, handlers and reader callee the translated loop is [feed] over the callee's successive results; with the
+   call history as handler state it IS the model [handle_reader]; it returns for every callee that never panics and consumes an
+   event per non-EOF result (GenProofs/PureG34.v).  maps_only: the model reader returns Maps or nil (a typing condition). *)
+From Mxj Require GenProofs.PureG34.
+
+Theorem C13_handle_json_reader_raw_code_is_model : forall next mh eh st S, PureG34.maps_only next ->
+  fn_HandleJsonReaderRaw PureG34.hst (PureG34.conv_raw next) st S (PureG34.map_handler mh) (PureG34.err_handler eh) PureG34.hst0
+  = PureG34.hout_ctl (handle_reader next mh eh S).
+Proof. exact PureG34.handle_json_reader_raw_code_is_model. Qed.
+Print Assumptions C13_handle_json_reader_raw_code_is_model.
+
+Theorem C13_handle_xml_reader_raw_code_is_model : forall next mh eh st S, PureG34.maps_only next ->
+  fn_HandleXmlReaderRaw PureG34.hst (fun S (_ : list bool) => PureG34.conv_raw next S) st S (PureG34.map_handler mh) (PureG34.err_handler eh) PureG34.hst0
+  = PureG34.hout_ctl (handle_reader next mh eh S).
+Proof. exact PureG34.handle_xml_reader_raw_code_is_model. Qed.
+Print Assumptions C13_handle_xml_reader_raw_code_is_model.
+
+Theorem C13_handle_json_reader_code_is_model : forall next mh eh st S, PureG34.maps_only (with_unit_raw next) ->
+  fn_HandleJsonReader PureG34.hst (PureG34.conv next) st S (PureG34.map_handler0 mh) (PureG34.err_handler0 eh) PureG34.hst0
+  = PureG34.hout_ctl (handle_reader (with_unit_raw next) mh eh S).
+Proof. exact PureG34.handle_json_reader_code_is_model. Qed.
+Print Assumptions C13_handle_json_reader_code_is_model.
+
+Theorem C13_handle_xml_reader_code_is_model : forall next mh eh st S, PureG34.maps_only (with_unit_raw next) ->
+  fn_HandleXmlReader PureG34.hst (fun S (_ : list bool) => PureG34.conv next S) st S (PureG34.map_handler0 mh) (PureG34.err_handler0 eh) PureG34.hst0
+  = PureG34.hout_ctl (handle_reader (with_unit_raw next) mh eh S).
+Proof. exact PureG34.handle_xml_reader_code_is_model. Qed.
+Print Assumptions C13_handle_xml_reader_code_is_model.
+
+Theorem C13_handlers_code_returns : forall H mapH errH rd st S h, PureG34.rd_total rd -> PureG34.rd_consumes rd ->
+  exists r, fn_HandleJsonReaderRaw H rd st S mapH errH h = Ret r.
+Proof. exact PureG34.handlers_code_returns. Qed.
+Print Assumptions C13_handlers_code_returns.
